@@ -174,6 +174,34 @@ def decouple (p : RProfile) : RProfile :=
 /-- `PreferenceAddition().evaluate(votes, 1)` — Bucklin with the default `split_equal_rankings=True` -/
 def evalBucklinSplit (p : RProfile) : Except Err (List Slot) := evalBucklin (decouple p)
 
+/-! ### `PreferenceAddition(coefficients, …)` with an arbitrary coefficient function (Bucklin family: Oklahoma primary …) -/
+
+/-- `_get_coefficient(pref_i)` for a coefficient LIST (sequential.py L618-624): the entry, the last entry beyond the end -/
+def coefOfList (l : List Rat) (i : Nat) : Rat := l.getD i (l.getLastD 0)
+
+/-- `_add_round_votes` (L600-616) with `coef = _get_coefficient(pref_i)` and nobody elected yet -/
+def bucklinRoundC (c : Rat) (p : RProfile) (i : Nat) (tot : Votes) : Votes :=
+  p.foldl (fun t bw => match bw.1[i]? with
+    | some it => it.cands.foldl (fun t x => addTo t x (bw.2 * c)) t
+    | none => t) tot
+
+/-- the round loop of `PreferenceAddition.evaluate` (L542-563) for one seat with coefficient function `coef` -/
+def bucklinLoopC (coef : Nat → Rat) (p : RProfile) (quota : Rat) : Nat → Nat → Votes → List Slot
+  | 0, _, _ => []
+  | f + 1, i, tot =>
+    let tot' := bucklinRoundC (coef i) p i tot
+    let maj := (sortDesc tot').filter (fun e => decide (quota < e.2))
+    let best := getNBest maj 1
+    if best.length = 1 then best else bucklinLoopC coef p quota f (i + 1) tot'
+
+/-- `PreferenceAddition(coefficients, split_equal_rankings=False).evaluate(votes, 1)` -/
+def evalPA (coef : Nat → Rat) (p : RProfile) : Except Err (List Slot) :=
+  if p.isEmpty then .error .valueError
+  else .ok (bucklinLoopC coef p (sumValues p / 2) (maxLen p) 0 [])
+
+/-- `PreferenceAddition(coefficients).evaluate(votes, 1)` (shared ranks split, the default) -/
+def evalPASplit (coef : Nat → Rat) (p : RProfile) : Except Err (List Slot) := evalPA coef (decouple p)
+
 /-- `RankedToCondorcetVotes().convert` -/
 def pairwiseOf (p : RProfile) : Condorcet.Pairwise := rankedToCondorcet true p
 
